@@ -439,26 +439,27 @@ type LoopSpec struct {
 }
 
 type FuncSpec struct {
-	Key           string // pkgpath.Recv.Name or pkgpath.Name
-	Requires      []*SExpr
-	Ensures       []*SExpr
-	Modifies      []*SExpr
-	ModAll        bool // modifies *
-	Decreases     *SExpr
-	Loops         map[string]*LoopSpec
-	Trusted       bool // contract assumed, body not verified
-	Inline        bool
-	NoVerify      bool
-	Pure          bool // modifies nothing and result is a function of args+heap (trusted/extern use)
-	MayPanic      bool // explicit panics are part of the contract (not an obligation)
-	KFs           []KFAssume
-	Propagates    bool
-	WorkerEnsures []*SExpr
-	ChanNonNil    bool
-	SiteKFs       map[string][]KFAssume
-	Asserts       map[string][]*SExpr // site key -> assertions
-	File          string
-	Line          int
+	Key             string // pkgpath.Recv.Name or pkgpath.Name
+	Requires        []*SExpr
+	Ensures         []*SExpr
+	Modifies        []*SExpr
+	ModAll          bool // modifies *
+	Decreases       *SExpr
+	Loops           map[string]*LoopSpec
+	Trusted         bool // contract assumed, body not verified
+	Inline          bool
+	NoVerify        bool
+	Pure            bool // modifies nothing and result is a function of args+heap (trusted/extern use)
+	MayPanic        bool // explicit panics are part of the contract (not an obligation)
+	KFs             []KFAssume
+	Propagates      bool
+	DeferredHandler bool
+	WorkerEnsures   []*SExpr
+	ChanNonNil      bool
+	SiteKFs         map[string][]KFAssume
+	Asserts         map[string][]*SExpr // site key -> assertions
+	File            string
+	Line            int
 }
 
 type KFAssume struct {
@@ -646,6 +647,8 @@ func parseClause(f *FuncSpec, word, rest string) error {
 		f.WorkerEnsures = append(f.WorkerEnsures, e)
 	case "propagates":
 		f.Propagates = true
+	case "deferred-handler":
+		f.DeferredHandler = true
 	case "chan-values-nonnil":
 		f.ChanNonNil = true
 	case "trusted":
